@@ -336,11 +336,22 @@ def splitLimit (s sep : Str) (n : Num) : Except Err (List Str) :=
     | .ok (some m) => .ok (splitN sep m s)
     | .ok none => .ok (split sep s)
 
+/-- The `maxsplits` decoding of `splitLimitR`: a count that does not fit `usize`
+    saturates (`unwrap_or(usize::MAX)`), only `-1` selects the forward split. -/
+def decodeMaxsplitsR (n : Num) : Except Err (Option Nat) :=
+  if n.notInt then .error .maxsplitsNotInt
+  else if n.ltZero then
+    if n.int = 1 then .ok none else .error .maxsplitsNeg
+  else
+    match n.tryToUsize with
+    | none => .ok (some USIZE_MAX)
+    | some v => if v + 1 ≤ USIZE_MAX then .ok (some (v + 1)) else .ok (some USIZE_MAX)
+
 /-- `do_std_split_limit_r` -/
 def splitLimitR (s sep : Str) (n : Num) : Except Err (List Str) :=
   if sep.isEmpty then .error .emptyDelim
   else
-    match decodeMaxsplits n with
+    match decodeMaxsplitsR n with
     | .error e => .error e
     | .ok (some m) => .ok (rsplitN sep m s).reverse
     | .ok none => .ok (split sep s)
